@@ -42,13 +42,22 @@ func CheckImmutable(
 		currentFunction: nil,
 	}
 
+	noFunction := ""
 	for file := range filesToCheck {
+		// The enclosing function (constructor exemption) and its receiver are scoped to one
+		// function declaration: package-level initialisers are in no function at all.
+		ctx.currentFunction, ctx.currentReceiver = &noFunction, nil
+		funcEnd := token.NoPos
 
 		// First pass: check simple assignments and inc/dec operations
 		// We skip compound assignments (+=, -=, etc.) here to avoid duplicates
 		ast.Inspect(file, func(n ast.Node) bool {
+			if n != nil && funcEnd.IsValid() && n.Pos() >= funcEnd {
+				ctx.currentFunction, ctx.currentReceiver, funcEnd = &noFunction, nil, token.NoPos
+			}
 			switch node := n.(type) {
 			case *ast.FuncDecl:
+				funcEnd = node.End()
 				ctx.currentFunction = &node.Name.Name
 
 				// Track receiver information for methods
